@@ -234,6 +234,8 @@ class Scenario:
                 env['VSHIM_DEVMAP'] = ':'.join(self.devmap)
             if fsize is not None:
                 env['VSHIM_FSIZE'] = str(int(fsize))
+            if os.environ.get('VSHIM_OFF_AT_EXIT'):         # coverage measurement runs only (tools/cov.py)
+                env['VSHIM_OFF_AT_EXIT'] = os.environ['VSHIM_OFF_AT_EXIT']
         env.update(self.env_extra)
         env = {fsb(k): fsb(v) for k, v in env.items()}      # values may name directories with arbitrary bytes (HOME, TMPDIR)
         cmd = [self.tools.mdsort, '-f', os.path.join(self.root, 'conf')] + self.args
